@@ -432,10 +432,10 @@ type recLogger struct {
 	rejects []string // "err" values of "ApplyTransaction failed" records, in order
 }
 
-func (l *recLogger) New(ctx ...interface{}) log.Logger  { return l }
-func (l *recLogger) AddTag(tag string)                  {}
-func (l *recLogger) GetHandler() log.Handler            { return log.DiscardHandler() }
-func (l *recLogger) SetHandler(h log.Handler)           {}
+func (l *recLogger) New(ctx ...interface{}) log.Logger    { return l }
+func (l *recLogger) AddTag(tag string)                    {}
+func (l *recLogger) GetHandler() log.Handler              { return log.DiscardHandler() }
+func (l *recLogger) SetHandler(h log.Handler)             {}
 func (l *recLogger) Trace(msg string, ctx ...interface{}) {}
 func (l *recLogger) Debug(msg string, ctx ...interface{}) {}
 func (l *recLogger) Info(msg string, ctx ...interface{})  {}
